@@ -1855,6 +1855,64 @@ def index_loops(fn, ref_loops):
       return None
     return a.value
 
+  # for i, j in itertools.combinations(range(N), 2): B   is
+  # for i in range(N - 1): for j in range(i + 1, N): B   (same pairs, same
+  # order) when the reference writes the pair loops that way
+  for owner in ast.walk(fn):
+    for f_ in ('body', 'orelse', 'finalbody'):
+      block = getattr(owner, f_, None)
+      if not (isinstance(block, list) and block and isinstance(
+          block[0], ast.stmt)):
+        continue
+      for bi, loop in enumerate(block):
+        if not (isinstance(loop, ast.For) and not loop.orelse and isinstance(
+            loop.iter, ast.Call) and ast.unparse(loop.iter.func) in (
+                'itertools.combinations', 'combinations') and len(
+                    loop.iter.args) == 2 and isinstance(
+                        loop.iter.args[1], ast.Constant) and
+                loop.iter.args[1].value == 2 and isinstance(
+                    loop.target, ast.Tuple) and len(
+                        loop.target.elts) == 2 and all(isinstance(
+                            e, ast.Name) for e in loop.target.elts)):
+          continue
+        rng = loop.iter.args[0]
+        if not (isinstance(rng, ast.Call) and isinstance(
+            rng.func, ast.Name) and rng.func.id == 'range' and len(
+                rng.args) == 1 and not rng.keywords):
+          continue
+        n_txt = ast.unparse(rng.args[0])
+        outer = 'range(%s - 1)' % n_txt
+        if outer not in ref or len(ref[outer]) != 1:
+          continue
+        ri = next(iter(ref[outer]))
+        inner = 'range(%s + 1, %s)' % (ri, n_txt)
+        if inner not in ref or len(ref[inner]) != 1 or not ri.isidentifier():
+          continue
+        rj = next(iter(ref[inner]))
+        if not rj.isidentifier():
+          continue
+        vi, vj = [e.id for e in loop.target.elts]
+        stored = {n.id for x in loop.body for n in ast.walk(x) if isinstance(
+            n, ast.Name) and isinstance(n.ctx, (ast.Store, ast.Del))}
+        if stored & {vi, vj, ri, rj}:
+          continue
+        ren = {vi: ri, vj: rj}
+        for x in loop.body:
+          for n in ast.walk(x):
+            if isinstance(n, ast.Name) and n.id in ren:
+              n.id = ren[n.id]
+        inner_loop = ast.For(target=ast.Name(id=rj, ctx=ast.Store()),
+                             iter=ast.parse(inner, mode='eval').body,
+                             body=loop.body, orelse=[], lineno=loop.lineno)
+        outer_loop = ast.For(target=ast.Name(id=ri, ctx=ast.Store()),
+                             iter=ast.parse(outer, mode='eval').body,
+                             body=[inner_loop], orelse=[], lineno=loop.lineno)
+        ast.copy_location(inner_loop, loop)
+        ast.copy_location(outer_loop, loop)
+        block[bi] = outer_loop
+        have.add(outer)
+        have.add(inner)
+        ast.fix_missing_locations(fn)
   for loop in [n for n in ast.walk(fn) if isinstance(n, ast.For)]:
     it = loop.iter
     subs = None        # {element variable: subscript text}
